@@ -5,7 +5,7 @@
 //
 // Case JSON:
 //   chdir:  absolute directory the child runs in (relative top-level / include paths resolve there)
-//   mode:   "fs" | "callback" | "disabled"
+//   mode:   "fs" | "callback" | "disabled"      use_cb: true = set the callback also in "disabled" mode
 //   cb:     [{"name": s, "cur_any": bool, "cur": null|s, "ns": null|s, "text": null|s}]  callback table,
 //           first entry with matching name / current path / namespace decides; no entry or text=null: Err
 //   calls:  [{"kind": "file", "path": s, "ns": null|s} | {"kind": "str", "text": s, "ns": null|s}]
@@ -13,7 +13,7 @@
 //   scan_hex: bytes scanned once with the finalized scanner
 // Result: {"impl": SESSION, "inline": SESSION},
 //   SESSION = {"results": [null | kind], "rules": [[ns, name, global, private]], "matched": [[ns, name]],
-//              "log": [[name, cur|null, ns]]}  |  {"crash": "<exit status>", "stderr": ...}
+//              "log": [[name, cur|null, ns]], "log_marks": [log length after each call]}  |  {"crash": "<exit status>", "stderr": ...}
 use std::io::{Read, Write};
 use std::process::{Command, Stdio};
 use std::sync::{Arc, Mutex};
@@ -61,7 +61,7 @@ fn session(case: &Value, which: &str) -> Value {
         if mode == "disabled" {
             c.set_params(CompilerParams::default().disable_includes(true));
         }
-        if mode == "callback" {
+        if mode == "callback" || get_bool(case, "use_cb") {
             let tbl: Vec<Value> = case["cb"].as_array().cloned().unwrap_or_default();
             let log2 = log.clone();
             c.set_include_callback(move |name, cur, ns| {
@@ -90,6 +90,7 @@ fn session(case: &Value, which: &str) -> Value {
     }
     let calls = if which == "impl" { &case["calls"] } else { &case["inline_calls"] };
     let mut results = Vec::new();
+    let mut log_marks = Vec::new();
     for k in calls.as_array().expect("calls") {
         let ns = k["ns"].as_str();
         let r = if k["kind"].as_str() == Some("file") {
@@ -113,6 +114,7 @@ fn session(case: &Value, which: &str) -> Value {
                 json!(kind_of(&e))
             }
         });
+        log_marks.push(log.lock().unwrap().len());
     }
     let scanner = c.finalize();
     let rules: Vec<Value> = scanner
@@ -125,7 +127,7 @@ fn session(case: &Value, which: &str) -> Value {
         Err((e, _)) => vec![json!(["<scan error>", format!("{e:?}")])],
     };
     let log = log.lock().unwrap().clone();
-    json!({"results": results, "rules": rules, "matched": matched, "log": log})
+    json!({"results": results, "rules": rules, "matched": matched, "log": log, "log_marks": log_marks})
 }
 
 fn child(which: &str) {
